@@ -8,6 +8,7 @@ Stream level: `Model/WsWritePath.lean` (pending queue, blocking and asynchronous
 -/
 import Sonic.Lemmas.WsEncodeModel
 import Sonic.Lemmas.WsWritePathInv
+import Sonic.Props.WsFrameTie
 
 namespace Sonic.Props.C16
 open Sonic.Model.WsBuf Sonic.Model.WsFrame Sonic.Model.WsEncode Sonic.Model.WsWritePath Sonic.Spec.WsFrame
